@@ -21,12 +21,14 @@
    of steps, the machine's list is the run of the sections it executed, in the order in which it executed them; unless the
    32-bit counter wrapped to zero (C19), content and results are those of the sequential specification in that order; the
    order contains the calls of every finished thread in program order, and what a thread reported are the results of its
-   own sections.  NOT mechanised: the projection of the machine's traversal steps onto CLTrav's events (the traversal
-   theorem is about every sequence of such events), real-time order beyond the shape of the code (C03_section_inside_call),
-   the EventDispatcher's map of lists (tie A: lock scopes), and data-race freedom of the real code (ThreadSanitizer in the
-   thorough tier). *)
+   own sections; no configuration is reached in which unfinished threads all wait for the mutex (C03_no_call_blocks_for_ever),
+   and code that touches the links runs only under the mutex (C03_sections_run_under_the_mutex).  Traversals of the machine are covered too (C03_finished_traversals_visit_what_stayed:
+   CLTrav's invariant carried along every run).  NOT mechanised: that the order of visits is list order at the level of the
+   machine (it is at the level of CLTrav's events, C03_traversal_visits_in_list_order), real-time order beyond the shape of
+   the code (C03_section_inside_call), the EventDispatcher's map of lists (tie A: lock scopes), and data-race freedom of the
+   real code (ThreadSanitizer in the thorough tier). *)
 From Coq Require Import List Arith NArith ZArith Bool.
-From EV Require Import CLModel CLHeap CLConcProofs CLConc CLConcProj.
+From EV Require Import CLModel CLHeap CLConcProofs CLConc CLConcTrav CLConcProj.
 From EV.gen Require GenCL.
 Import ListNotations.
 
@@ -79,6 +81,55 @@ Theorem C03_sections_follow_program_order :
     rl t s = map eres (filter (fun e => negb (adds (esec e))) (tsecs t s)).
 Proof. exact sections_of_a_finished_thread_are_its_calls_in_program_order. Qed.
 Print Assumptions C03_sections_follow_program_order.
+
+(* no deadlock on the list's mutex: in the configuration any run ends in, either every thread has finished its program or
+   the scheduler finds a thread that can take a step (whoever holds the mutex has not finished and is not waiting for it) *)
+Theorem C03_no_call_blocks_for_ever :
+  forall progs sch fuel,
+    let s := fst (lrun fuel ls0 (lstart progs) sch) in
+    let ths := snd (lrun fuel ls0 (lstart progs) sch) in
+    forallb lfin ths = true \/ exists t, lfirst ths 0 (lenabled s) = Some t.
+Proof. exact no_call_blocks_for_ever. Qed.
+Print Assumptions C03_no_call_blocks_for_ever.
+
+(* lock discipline: code that touches the links never ran while its thread did not hold the mutex (the ghost flag the
+   machine sets in that case stays false; lock_discipline_flag_can_be_set shows it can be set) *)
+Theorem C03_sections_run_under_the_mutex :
+  forall progs sch fuel, lbad (fst (lrun fuel ls0 (lstart progs) sch)) = false.
+Proof. exact sections_run_under_the_mutex. Qed.
+Print Assumptions C03_sections_run_under_the_mutex.
+
+Example C03_lock_discipline_flag_can_be_set :
+  lbad (fst (ladvance 5 0 ls0 (mkLT [do_sec true (fun _ _ => SRemove None)] [] ll0 false None))) = true /\
+  lbad (fst (ladvance 5 0 (ls_own ls0 (Some 0)) (mkLT [do_sec true (fun _ _ => SRemove None)] [] ll0 false None))) = false.
+Proof. exact lock_discipline_flag_can_be_set. Qed.
+
+(* traversals of the machine (invocations, enumerations) under interference, for every program, schedule and number of
+   steps: a traversal that has ended is recorded by the ghost ltravs as (thread, p0, p1, visited nodes), p0 / p1 being the
+   number of sections executed when it read head / when it ended.  Unless the counter wrapped: it visited no node twice,
+   and it visited every node that was in the list after the first p0 sections and that none of the sections p0+1 .. p1
+   removed — in the machine itself, with the captured counter and the unlocked look at the node as in the header
+   (GenCL.visit_cond); CLTrav's invariant is carried along the run (CLConcTrav.v, CLConcProj.v) *)
+Theorem C03_finished_traversals_visit_what_stayed :
+  forall progs sch fuel t p0 p1 vis,
+    let s := fst (lrun fuel ls0 (lstart progs) sch) in
+    ~ wrapped s -> In (t, p0, p1, vis) (ltravs s) ->
+    p0 <= p1 /\ p1 <= length (lsecs s) /\
+    NoDup vis /\
+    forall z, In z (ids_rec (old_rec (lsecs s) p0)) -> ~ In z (gone_rec (new_rec (old_rec (lsecs s) p1) p0)) -> In z vis.
+Proof. exact finished_traversals_visit_what_stayed. Qed.
+Print Assumptions C03_finished_traversals_visit_what_stayed.
+
+Example C03_traversal_in_the_machine_example :
+  let r := lrun 600 ls0 (lstart trav_progs) trav_sched in
+  let s := fst r in
+  forallb lfin (snd r) = true /\
+  ltravs s = [(0, 3, 5, [0; 2])] /\
+  ids_rec (old_rec (lsecs s) 3) = [0; 1; 2] /\
+  gone_rec (new_rec (old_rec (lsecs s) 5) 3) = [1] /\
+  secs_of s = [SBack 1 1; SBack 2 2; SBack 3 3; SRemove (Some 1); SBack 4 4] /\
+  filter (fun a => match a with LaCall _ _ _ => true | _ => false end) (rev (llog s)) = [LaCall 0 1 7; LaCall 0 3 7].
+Proof. exact traversal_example. Qed.
 
 (* a call's section stands between the call's first action and its end marker *)
 Theorem C03_section_inside_call :
